@@ -12,3 +12,195 @@ def gen_consts(v):
     return v.gen_consts_cpp(ID, ['olad/DmxSource.h', 'ola/dmx/SourcePriorities.h', 'ola/Constants.h'],
                             ents, os.path.join(v.VERIF, 'props', ID, 'coq', 'Gen.v'),
                             extra_sources=['olad/plugin_api/DmxSource.cpp', 'common/utils/Clock.cpp'])
+
+
+class _SpecKeys(object):
+    """b<k> = frame held after op k, e<k> = WriteDMX/SendDMX calls made by op k (ids, frames, priority):
+    what the property fixes.  p<k> (m_active_priority, also rewritten by merges that report no
+    change) and m<k> (membership lists) are internal observables."""
+    def __contains__(self, k):
+        return k[:1] in ('b', 'e') or k.startswith('crash')
+SPEC_KEYS = _SpecKeys()
+
+PRIOS = [0, 1, 99, 100, 101, 199, 200]
+TIMEOUT = 2500000
+
+
+def hx(bs):
+    return ''.join('%02x' % b for b in bs) if bs else '-'
+
+
+def gen_frame(rng, big_ok=True):
+    r = rng.random()
+    if r < 0.08:
+        n = 0
+    elif r < 0.72:
+        n = rng.choice([1, 2, 3, 4, 5])
+    elif r < 0.90 or not big_ok:
+        n = rng.choice([6, 8, 16, 24])
+    else:
+        n = rng.choice([511, 512, 513, 600, rng.randrange(25, 512)])
+    style = rng.random()
+    if style < 0.5:
+        return [rng.randrange(256) for _ in range(n)]
+    if style < 0.8:
+        return [rng.choice([0, 0, 1, 127, 128, 254, 255]) for _ in range(n)]
+    v = rng.randrange(256)
+    return [v] * n
+
+
+def gen_history(rng, nops, big_ok=True):
+    ops = []
+    nports = rng.choice([1, 2, 2, 3, 3, 4])
+    nclients = rng.choice([0, 1, 1, 2, 3])
+    if rng.random() < 0.1:
+        nports, nclients = rng.choice([(0, 2), (0, 3), (1, 0), (4, 3)])
+    port_ids = rng.sample(range(8), nports)
+    client_ids = rng.sample(range(8), nclients)
+    out_ids = rng.sample(range(8), rng.choice([0, 1, 1, 2, 3]))
+    sink_ids = rng.sample(range(8), rng.choice([0, 1, 1, 2, 3]))
+    setup = [('ai', i) for i in port_ids] + [('ao', i) for i in out_ids] + [('ak', i) for i in sink_ids]
+    rng.shuffle(setup)
+    ops += ['%s,%d' % s for s in setup]
+    if rng.random() < 0.5:
+        ops.append('mode,%d' % rng.choice([0, 1]))
+    # a small palette so that equal priorities (groups of 2 and more) are common
+    palette = [rng.choice(PRIOS + [100, 100]) for _ in range(rng.choice([1, 1, 2, 3]))]
+    for i in port_ids:
+        r = rng.random()
+        if r < 0.35:
+            ops.append('pp,%d,%d' % (i, rng.choice(palette)))
+        elif r < 0.55:
+            ops += ['pk,%d,1' % i, 'pm,%d,1' % i, 'ph,%d,%d' % (i, rng.choice(palette))]
+    now = rng.choice([1, 2500000, 2500001, rng.randrange(1, 10 ** 7), rng.randrange(1, 10 ** 12)])
+    last_ts = {}   # source key -> last timestamp
+
+    def pick_prio():
+        r = rng.random()
+        if r < 0.7:
+            return rng.choice(palette)
+        if r < 0.95:
+            return rng.choice(PRIOS)
+        return rng.choice([201, 255, rng.randrange(256)])
+
+    def advance():
+        nonlocal now
+        r = rng.random()
+        if r < 0.25:
+            d = 0
+        elif r < 0.55:
+            d = rng.choice([1, 2, 1000, 20000, rng.randrange(1, 100000)])
+        elif r < 0.75 and last_ts:
+            # aim exactly at the liveness boundary of some source
+            t = rng.choice(list(last_ts.values()))
+            target = t + rng.choice([TIMEOUT - 1, TIMEOUT, TIMEOUT + 1])
+            d = max(0, target - now)
+        elif r < 0.9:
+            d = rng.choice([TIMEOUT - 1, TIMEOUT, TIMEOUT + 1, 1250000, 2000000])
+        else:
+            d = rng.choice([5000000, 10 ** 7, rng.randrange(1, 10 ** 7)])
+        now += d
+
+    def stamp():
+        r = rng.random()
+        if r < 0.8:
+            return now
+        if r < 0.93:
+            return max(0, now - rng.choice([1, 1000, 20000, TIMEOUT - 1, TIMEOUT, TIMEOUT + 1]))
+        if r < 0.97:
+            return now + rng.choice([1, 1000, TIMEOUT])
+        return 0
+
+    for _ in range(nops):
+        advance()
+        r = rng.random()
+        anyport = lambda: rng.choice(port_ids) if port_ids and rng.random() < 0.9 else rng.randrange(8)
+        anyclient = lambda: rng.choice(client_ids) if client_ids and rng.random() < 0.9 else rng.randrange(8)
+        if r < 0.36:
+            i = anyport()
+            ts = stamp()
+            last_ts[('p', i)] = ts
+            ops.append('pd,%d,%s,%d,%d' % (i, hx(gen_frame(rng, big_ok)), ts, now))
+        elif r < 0.62 and (client_ids or rng.random() < 0.2):
+            c = anyclient()
+            ts = stamp()
+            last_ts[('c', c)] = ts
+            ops.append('cd,%d,%s,%d,%d,%d' % (c, hx(gen_frame(rng, big_ok)), pick_prio(), ts, now))
+        elif r < 0.67:
+            ops.append('pc,%d,%d' % (anyport(), now))
+        elif r < 0.71:
+            ops.append('cc,%d,%d' % (anyclient(), now))
+        elif r < 0.76:
+            ops.append('mode,%d' % rng.choice([0, 1]))
+        elif r < 0.80:
+            ops.append('%s,%d' % (rng.choice(['ai', 'ri', 'ai']), anyport()))
+        elif r < 0.83:
+            ops.append('%s,%d' % (rng.choice(['as', 'rs']), anyclient()))
+        elif r < 0.87:
+            ops.append('%s,%d' % (rng.choice(['ao', 'ro', 'ao']), rng.randrange(8)))
+        elif r < 0.91:
+            ops.append('%s,%d' % (rng.choice(['ak', 'rk', 'ak']), rng.randrange(8)))
+        else:
+            i = anyport()
+            k = rng.choice(['pp', 'pp', 'pm', 'ph', 'pk'])
+            if k in ('pp', 'ph'):
+                ops.append('%s,%d,%d' % (k, i, pick_prio()))
+            else:
+                ops.append('%s,%d,%d' % (k, i, rng.choice([0, 1, 1])))
+    return ' '.join(ops)
+
+
+def gen_cases(rng, tier):
+    quick = tier == 'quick'
+    n = 4000 if quick else 200000
+    for k in range(n):
+        nops = rng.choice([1, 3, 6, 10, 15, 25, 40]) if k % 10 else rng.randrange(1, 41)
+        yield gen_history(rng, nops, big_ok=(k % 4 == 0))
+    # dense small-state histories: 2-3 sources, one priority, times around the boundary
+    for k in range(n // 4):
+        yield gen_history(rng, rng.choice([8, 12, 20]), big_ok=False)
+
+
+def nontrivial(payload, md):
+    """at least one update that changed the frame and was fanned out (state-changing step) and at least
+    one update step at all (every history has one accepting step when it has a non-empty fan-out)"""
+    return any(k[:1] == 'e' and v != '-' for k, v in md.items())
+
+
+RULE = ('random histories (1-40 ops after a random patching prologue) over <=4 input ports, <=3 source clients, '
+        '<=3 output ports, <=3 sink clients, both merge modes with switches mid-history; priorities from '
+        '{0,1,99,100,101,199,200}+palette (+201/255 rarely), clock steps {0,1,2499999,2500000,2500001,...} '
+        'including steps aimed at ts+2.5s-1/+0/+1 of an existing source, stamps equal/older/newer than the clock '
+        'and unset, frame lengths {0,1..5,..,511,512,513}; class = set of merge outcomes reached '
+        '(nolive/dead/lowprio/single/ltpnewest/ltpolder/htp2/htp3+); non-trivial = at least one update whose merge '
+        'changed the frame and produced fan-out calls; distinct = distinct model output line')
+ASSUMPTIONS = ['operator new does not fail',
+               'time stamps below 2^62 microseconds (struct timeval arithmetic does not overflow)',
+               'sink and source clients are ordered by object address; the harness allocates clients in one '
+               'block so that address order is id order']
+TRUSTED = ['modelled rather than verified: Universe.cpp MergeAll/HTPMergeSources/UpdateDependants/PortDataChanged/'
+           'SourceClientDataChanged/SetMergeMode/Add*/Remove*, DmxSource IsSet/IsActive, BasicInputPort::DmxChanged/'
+           'SetPriority, Client::DMXReceived/SourceData',
+           'DmxBuffer through its value semantics only (Set caps at 512 slots, HTPMerge = slot-wise max, longer tail '
+           'kept); the copy-on-write implementation is the subject of C02',
+           'TimeStamp arithmetic/comparison as exact arithmetic on microseconds; constants regenerated into Gen.v']
+LEVEL_TEXT = ('Coq theorems, for every world (not only reachable ones), every update call, both merge modes and any '
+              'number and mix of input ports and source clients, over an executable model of Universe::MergeAll/'
+              'HTPMergeSources/UpdateDependants and the port/client update paths: after an update the frame held and '
+              'the WriteDMX/SendDMX calls made are exactly what the property prescribes as a function of the live '
+              'highest-priority group (slot-wise maximum in HTP, updater-unless-a-newer-member in LTP, sole member '
+              'verbatim, nothing for an updater outside the group), fan-out is one call per output port and sink with '
+              'the group priority, sources outside the group cannot influence frame or calls (non-interference), all '
+              'other calls leave the frame alone; reachable worlds keep containers duplicate-free, frames <= 512 slots and (given supplied priorities <= 200) handed-out priorities <= 200. '
+              'The model is tied to the C++ by a differential correspondence check after every operation '
+              '(ASan/UBSan build of the /repo working tree) and the constants 2.5 s/0/100/200/512 are regenerated from the headers. '
+              'Not covered: m_active_priority is rewritten by merges that report no change (observed, compared as an '
+              'internal key, stated in c01_merge, not part of the property clauses); Universe::SetDMX, '
+              'CleanStaleSourceClients and RDM are not modelled.')
+LEVEL_NOTE = ('Trusted: Coq 8.16.1 kernel (vm_compute only in Examples), extraction (ExtrOcamlBasic), OCaml/C++ glue, '
+              'generator coverage of the correspondence; model = code is validated by differential testing, not proved. '
+              'DmxBuffer enters through its value semantics (C02), TimeStamp arithmetic as exact microsecond arithmetic; '
+              'the harness controls the universe Clock and the wake-up time stamp directly and allocates clients in one '
+              'block so that the address order of the client containers is id order.')
+TECHNIQUE = 'Coq proof on hand-written executable model + extracted-model/implementation differential correspondence'
+DESIGN_REF = 'DESIGN.md §4 C01'
